@@ -294,9 +294,19 @@ def urltab():
 
 
 def decode_line(fam, ext, text):
+    """ext: False = empty extension type, True = the two-member extension struct, "M" = a map-typed
+    extension that receives every member the library does not know (observed: their names)"""
     if isinstance(text, str):
         text = text.encode("utf-8")
-    return "DECODE %s %s %s %s" % (fam, "X" if ext else "E", C.tb(text), urltab())
+    return "DECODE %s %s %s %s" % (fam, "M" if ext == "M" else ("X" if ext else "E"), C.tb(text), urltab())
+
+
+# member names that real servers add to these documents (vendor extensions, OpenID Connect, drafts)
+VENDOR_NAMES = ["message", "id_token", "ext_expires_in", "resource", "not_before", "expires_on", "expires_at", "refresh_token_expires_in", "refresh_expires_in",
+                "session_state", "foci", "client_info", "correlation_id", "trace_id", "timestamp", "error_codes", "issued_token_type", "authorization_details",
+                "cnf", "acr", "amr", "azp", "auth_time", "nonce", "realm_access", "resource_access", "permissions", "tenant", "uid", "email", "name", "groups",
+                "roles", "user_id", "account_id", "team_id", "instance_url", "signature", "issued_at", "created_at", "status", "ok", "warning", "hint",
+                "qr_code", "verification_qr", "poll_url", "device_id", "user_code_expires_in", "max_age", "version", "data", "result", "extra", "meta"]
 
 
 def gen_decode(fam, tier, rng, n_docs=None):
@@ -310,6 +320,8 @@ def gen_decode(fam, tier, rng, n_docs=None):
         m, known = family_doc(fam if not fam.startswith("err-") else "error", rng, ext)
         full = shuffled(m + unknown_members(rng, known), rng)
         out.append((decode_line(dfam, ext, render(obj(full), rng)), "valid-model"))
+        if not ext and not fam.startswith("err-") and i % 2 == 0:
+            out.append((decode_line(dfam, "M", render(obj(full), rng)), "valid-model-map-extension"))
         if i % (8 if tier == "quick" else 20) == 0:
             for label, cm in corruptions(m, known, rng):
                 out.append((decode_line(dfam, ext, render(obj(cm), rng, plain=True)), label.split(":")[0]))
@@ -332,8 +344,19 @@ def gen_decode(fam, tier, rng, n_docs=None):
     for alias in names:
         for val in ("alias-value", 7):
             out.append((decode_line(dfam, False, render(obj(bm + [(alias, val)]), rng, plain=True)), "alias-beside"))
+            if efam != "error":
+                out.append((decode_line(dfam, "M", render(obj(bm + [(alias, val)]), rng, plain=True)), "alias-beside-map-extension"))
             reduced = [(k, v) for k, v in bm if k in required]
             out.append((decode_line(dfam, False, render(obj(reduced + [(alias, val)]), rng, plain=True)), "alias-instead"))
+    # vendor members: delivered to a map-typed extension whatever their value, ignored otherwise
+    if efam != "error":
+        for vn in VENDOR_NAMES:
+            if vn in known:
+                continue
+            for val in ("vendor-value", 7, None, obj([("nested", [1, "x"])])):
+                out.append((decode_line(dfam, "M", render(obj(shuffled(bm + [(vn, val)], rng)), rng, plain=True)), "vendor-member-map-extension"))
+            out.append((decode_line(dfam, False, render(obj(shuffled(bm + [(vn, 7)], rng)), rng, plain=True)), "vendor-member"))
+        out.append((decode_line(dfam, "M", render(obj(shuffled(bm + [(vn, "v") for vn in VENDOR_NAMES if vn not in known], rng)), rng, plain=True)), "vendor-member-map-extension"))
     # malformed / exotic text
     base_m, known = family_doc(fam if not fam.startswith("err-") else "error", rng, False)
     base = render(obj(base_m), rng, plain=True)
